@@ -515,17 +515,28 @@ fn check_reverb(ctx: &mut Ctx, idx: u64, r: &mut Rng) -> Option<(String, J)> {
 
 fn check_compressor(ctx: &mut Ctx, idx: u64, r: &mut Rng) -> Option<(String, J)> {
 	let sr = *r.pick(&SAMPLE_RATES);
-	let threshold = r.f64_in(-40.0, -6.0);
-	let ratio = if r.chance(0.3) { *r.pick(&[2.0, 4.0, 10.0, 1.0, 100.0]) } else { r.log_in(1.0, 50.0) };
+	// test levels are plain 10^(dB/20): the -60 dB floor of kira's Decibels type is not part of the compressor's law
+	let raw_amp = |db: f64| 10f64.powf(db / 20.0);
+	// one case in four at the far end of the parameter space: very low thresholds with high ratios (gain reductions of 60 dB
+	// and more - the decibel law has no floor inside the compressor) and make-up gains from -70 to +40 dB
+	let extreme = r.chance(0.25);
+	let threshold = if extreme { r.f64_in(-90.0, -40.0) } else { r.f64_in(-40.0, -6.0) };
+	let ratio = if extreme {
+		r.log_in(8.0, 200.0)
+	} else if r.chance(0.3) {
+		*r.pick(&[2.0, 4.0, 10.0, 1.0, 100.0])
+	} else {
+		r.log_in(1.0, 50.0)
+	};
 	let attack_s = r.log_in(0.002, 0.1);
 	let release_s = r.log_in(0.005, 0.3);
-	let makeup = if r.chance(0.5) { 0.0 } else { r.f32_in(-6.0, 6.0) };
+	let makeup = if extreme { r.f32_in(-70.0, 40.0) } else if r.chance(0.5) { 0.0 } else { r.f32_in(-6.0, 6.0) };
 	let spec = FxSpec::Compressor { threshold, ratio, attack_s, release_s, makeup_db: makeup, mix: 1.0 };
 	ctx.distinct_str(&format!("comp|{}|{}|{}|{}", sr, (threshold / 8.0) as i64, (ratio.log2()) as i64, (attack_s.log10() * 2.0) as i64));
 	let q = |x: f64| std::time::Duration::from_secs_f64(x).as_secs_f64();
 	let (attack_s, release_s) = (q(attack_s), q(release_s));
 	// (a) below threshold: unchanged (makeup aside)
-	let below = db_to_amp(threshold - 3.0);
+	let below = raw_amp(threshold - 3.0);
 	let xb: Vec<Frame> = (0..2000).map(|i| Frame::from_mono((below * (i as f64 * 0.05).sin()) as f32)).collect();
 	let yb = run_effect(&spec, sr, 128, &xb, &[128]);
 	let mk = 10f64.powf(makeup as f64 / 20.0);
@@ -536,12 +547,15 @@ fn check_compressor(ctx: &mut Ctx, idx: u64, r: &mut Rng) -> Option<(String, J)>
 		}
 	}
 	// (b) DC step above threshold: attack time constant and steady-state reduction; then release
-	let over_db = r.f64_in(3.0, (-threshold - 0.5).min(30.0));
-	let level = db_to_amp(threshold + over_db);
+	let over_db = if extreme { r.f64_in((-threshold - 0.5).min(40.0), -threshold - 0.5) } else { r.f64_in(3.0, (-threshold - 0.5).min(30.0)) };
+	if extreme {
+		ctx.count("compressor_cases_with_60_dB_or_more_reduction", (over_db * (1.0 - 1.0 / ratio) >= 60.0) as u64);
+	}
+	let level = raw_amp(threshold + over_db);
 	let n_att = (attack_s * sr as f64).round() as usize;
 	let n_on = n_att * 12 + 2000;
 	let n_rel = (release_s * sr as f64).round() as usize;
-	let tail = db_to_amp(threshold - 20.0);
+	let tail = raw_amp(threshold - 20.0);
 	let mut x = vec![Frame::from_mono(level as f32); n_on];
 	x.extend(vec![Frame::from_mono(tail as f32); n_rel * 3 + 100]);
 	let y = run_effect(&spec, sr, 128, &x, &[128]);
@@ -561,7 +575,7 @@ fn check_compressor(ctx: &mut Ctx, idx: u64, r: &mut Rng) -> Option<(String, J)>
 		if n_rel >= 20 {
 			let fr = gr_db(n_on + n_rel - 1) / got_ss;
 			if (fr - (-1.0f64).exp()).abs() > 0.05 {
-				return Some((format!("compressor release: {} frames (= release time {:.4}s) after the level dropped the gain reduction is {:.1} % of its value, expected 36.8 %", n_rel, release_s, fr * 100.0), detail(&spec, sr, "release time constant")));
+				return Some((format!("compressor release: {} frames (= release time {:.4}s) after the level dropped the gain reduction is {:.1} % of its value, expected 36.8 % (reduction {:.3} dB then, {:.3} dB in the steady state; in {:e} out {:e})", n_rel, release_s, fr * 100.0, gr_db(n_on + n_rel - 1), got_ss, x[n_on + n_rel - 1].left, y[n_on + n_rel - 1].left), detail(&spec, sr, "release time constant")));
 			}
 		}
 	}
